@@ -4,7 +4,7 @@ from .core import (ite, band, bor, bnot, implies, const, is_slice_of, smin, smax
                    BList, BBase, PyExc, Unsupported, PathAbort, is_sym, T, TB, mk_bool, mk_int, to_bytes_val,
                    is_byteslike, bcat, bslice, bytes_eq)
 from .interp import Obj, Interp, LoopSpec, BoundMethod, UNBOUND
-from .symlist import SymList, from_list, forall
+from .symlist import SymList, SymMap, from_list, forall
 from .frontend import FuncVal, ClassVal, EnumMember
 
 MODE = "symbolic"
@@ -135,6 +135,79 @@ class Ctx:
 
     def calls(self, rec):
         return rec.attrs["__calls__"]
+
+    def int_map(self, name):
+        """an arbitrary dict[int, int]"""
+        return SymMap(name)
+
+    def map_has(self, m, k):
+        return m.contains(k)
+
+    def map_val(self, m, k):
+        return m.value(k)
+
+    def map_unmodified(self, m):
+        return not m.mutated
+
+    def is_bool(self, v):
+        return isinstance(v, (bool, SymBool))
+
+    def map_get(self, m, k, d):
+        return ite(m.contains(k), m.value(k), d)
+
+    def namespace(self, **attrs):
+        return Obj(None, dict(attrs), kind="argparse.Namespace")
+
+    def decimal(self, v):
+        """the decimal string of a non-negative integer"""
+        from .strings import PieceStr, IntPiece
+        return PieceStr([IntPiece(v)])
+
+    def dict_get(self, d, k):
+        try:
+            return self.I.subscript(d, k)
+        except PyExc:
+            return None
+
+    def model(self, dotted, fn):
+        """assumed contract of a library callable, supplied by the harness"""
+        self.I.models[dotted] = lambda I, *a, **k: fn(*a, **k)
+
+    def same_object(self, a, b):
+        if isinstance(a, (SymBool, SymInt)) and isinstance(b, (SymBool, SymInt)):
+            return a.t.eq(b.t)
+        return a is b
+
+    def is_external(self, v, dotted):
+        from .frontend import External
+        return isinstance(v, External) and v.dotted == dotted
+
+    def truth_fork(self, cond):
+        """split the contract's own case analysis on a symbolic condition"""
+        return self.I.truth(cond)
+
+    def summary_override(self, qualname, fn):
+        ctx = self
+        def call(interp, *a, **k):
+            try:
+                return fn(ctx, *a, **k)
+            except SpecRaise as r:
+                raise PyExc(r.cls, "raised by the callee's contract")
+        self.I.summaries[qualname] = call
+
+    def module_global(self, module, name):
+        return self.I.module(module).globals[name]
+
+    def lib(self, dotted, *args, **kw):
+        """call a library function through its assumed contract (native mode: the real library)"""
+        from .frontend import External
+        return self.I.call(External(dotted), list(args), kw)
+
+    def libmethod(self, obj, name, *args, **kw):
+        return self.I.call(self.I.getattr_(obj, name), list(args), kw)
+
+    def concrete(self, v):
+        return self.E.concretize(v) if is_sym(v) else v
 
     def bytearray_of(self, b):
         return ByteArr(to_bytes_val(b))
